@@ -62,6 +62,8 @@ std::string Scenario::describe() const {
 namespace {
 
 std::string make_tag(int op) { char b[24]; snprintf(b, sizeof b, "v/%05d/", op); return b; }
+// raw topics may carry the operation's tag behind a prefix: "{tag}" is replaced by "v/<op>/"
+std::string with_tag(std::string s, const std::string& tag) { size_t p = s.find("{tag}"); if (p != std::string::npos) s.replace(p, 5, tag); return s; }
 
 struct App : AppSink {
     World& w; Broker& b; const Scenario& sc; Run& run;
@@ -136,7 +138,7 @@ struct App : AppSink {
                 if (!cl->alive()) break;
                 auto& r = new_op(a.qos == 0 ? OpKind::pub0 : a.qos == 1 ? OpKind::pub1 : OpKind::pub2); op = r.id;
                 r.tag = make_tag(r.id);
-                r.topic = a.raw_topic ? a.topic : r.tag + a.topic;
+                r.topic = a.raw_topic ? with_tag(a.topic, r.tag) : r.tag + a.topic;
                 r.payload = a.payload; r.retain = a.retain; r.props = a.props; r.immediate_expected = a.expect_immediate; r.expect_ec = a.expect_ec; r.expect_ec = a.expect_ec;
                 mq::publish_props pp; l2r::from_ref(a.props, pp);
                 std::string topic = r.topic, payload = r.payload;
@@ -148,7 +150,7 @@ struct App : AppSink {
                 auto& r = new_op(OpKind::sub); op = r.id;
                 r.tag = make_tag(r.id);
                 std::vector<mq::subscribe_topic> topics;
-                for (auto& s : a.subs) { std::string f = a.raw_topic ? s.first : r.tag + s.first; r.subs.emplace_back(f, s.second); topics.push_back({f, l2r::sub_opts_from(s.second)}); }
+                for (auto& s : a.subs) { std::string f = a.raw_topic ? with_tag(s.first, r.tag) : r.tag + s.first; r.subs.emplace_back(f, s.second); topics.push_back({f, l2r::sub_opts_from(s.second)}); }
                 r.props = a.props; r.immediate_expected = a.expect_immediate; r.expect_ec = a.expect_ec;
                 mq::subscribe_props sp; l2r::from_ref(a.props, sp);
                 ++depth; cl->subscribe(op, topics, sp, a.with_slot); --depth;
@@ -159,7 +161,7 @@ struct App : AppSink {
                 auto& r = new_op(OpKind::unsub); op = r.id;
                 r.tag = make_tag(r.id);
                 std::vector<std::string> topics;
-                for (auto& s : a.subs) { std::string f = a.raw_topic ? s.first : r.tag + s.first; r.unsubs.push_back(f); topics.push_back(f); }
+                for (auto& s : a.subs) { std::string f = a.raw_topic ? with_tag(s.first, r.tag) : r.tag + s.first; r.unsubs.push_back(f); topics.push_back(f); }
                 r.props = a.props; r.immediate_expected = a.expect_immediate; r.expect_ec = a.expect_ec;
                 mq::unsubscribe_props up; l2r::from_ref(a.props, up);
                 ++depth; cl->unsubscribe(op, topics, up, a.with_slot); --depth;
